@@ -164,6 +164,39 @@ def bool_sequence_replay():
     return None
 
 
+def uint_class_replay():
+    """Native witness search for the Uint methods (set / encode / decode through the classes) on the spec AVM."""
+    from vf.core import use_repo
+    use_repo()
+    import pyteal as pt
+    from spec import avm
+    for size, cls in ((8, pt.abi.Uint8), (16, pt.abi.Uint16), (32, pt.abi.Uint32), (64, pt.abi.Uint64), (8, pt.abi.Byte)):
+        n = size // 8
+        for v in (0, 1, 2 ** size - 1, 0x0102030405060708 % 2 ** size):
+            for arg in (v, pt.Int(v)):
+                u, w = cls(), cls()
+                buf = b"\xaa\xaa\xaa" + v.to_bytes(n, "big") + b"\xbb"
+                teal = pt.compileTeal(pt.Seq(u.set(arg), pt.Log(u.encode()), w.decode(pt.Bytes(buf), start_index=pt.Int(3), end_index=pt.Int(3 + n)),
+                                             pt.Log(pt.Itob(w.get())), w.decode(pt.Bytes(buf[3:3 + n])), pt.Log(pt.Itob(w.get())), pt.Approve()), pt.Mode.Application, version=6)
+                r = avm.run(teal, avm.Ctx())
+                want = [v.to_bytes(n, "big"), v.to_bytes(8, "big"), v.to_bytes(8, "big")]
+                if r.verdict != "approve" or list(r.logs) != want:
+                    return {"input": {"class": cls.__name__, "value": v, "as": "int" if isinstance(arg, int) else "Int expression"},
+                            "problems": [f"{cls.__name__}: set / encode / decode gives {r.verdict} {[bytes(x).hex() for x in r.logs]}, expected {[x.hex() for x in want]}"], "teal": teal}
+        for bad in (2 ** size, pt.Int(2 ** size) if size < 64 else None):
+            if bad is None:
+                continue
+            u = cls()
+            try:
+                teal = pt.compileTeal(pt.Seq(u.set(bad), pt.Approve()), pt.Mode.Application, version=6)
+                verdict = avm.run(teal, avm.Ctx()).verdict
+            except pt.TealInputError:
+                teal, verdict = None, "rejected"
+            if verdict == "approve":
+                return {"input": {"class": cls.__name__, "value": 2 ** size}, "problems": [f"{cls.__name__}.set(2^{size}) neither rejected nor failing"], "teal": teal}
+    return None
+
+
 def run(report: Report, tier, seed):
     report.trust("algosdk.abi (reference codec: type strings, is_dynamic, byte_len, encode)", "spec/avm.py",
                  "spec arc4 position function in contracts/c06_layout.py (independent, element-by-element walk)")
@@ -178,7 +211,8 @@ def run(report: Report, tier, seed):
                            ("contracts.c06_uint", "UintEncode", "O6.19"),
                            ("contracts.c06_uint", "BoolEncode", "O6.20"),
                            ("contracts.c06_uint", "EncodeBoolSequence", "O6.21"),
-                           ("contracts.c06_uint", "BoolSetLiteral", "O6.22"), ("contracts.c06_uint", "BoolSetExpr", "O6.23")])
+                           ("contracts.c06_uint", "BoolSetLiteral", "O6.22"), ("contracts.c06_uint", "BoolSetExpr", "O6.23"),
+                           ("contracts.c06_uint", "UintEncodeLink", "O6.24"), ("contracts.c06_uint", "UintSetLink", "O6.25")])
     jobs = jobs_for(tier, seed)
     res = A.pool_map(A.encode_case, jobs)
     bad = [r for r in res if r["problems"]]
@@ -218,6 +252,8 @@ def run(report: Report, tier, seed):
     def search(fn, obs):
         if fn.endswith("_encode_bool_sequence"):
             return bool_sequence_replay()
+        if fn.endswith("Uint.encode") or fn.endswith("Uint.set"):
+            return uint_class_replay()
         if fn.endswith("Bool.set"):
             return bool_codec_replay("set")
         if fn.endswith("Bool.encode"):
